@@ -70,8 +70,26 @@ def check(case):
                 d = state.snap_diff(before, after)
                 changed = set(before["text"]) ^ set(after["text"])
                 only_placeholders = bool(changed) and all(("GFAPY_virtual_line" in t or "line_created_by_gfapy" in t) for t in changed)
+                clash = ""
+                if op[0] == "add":
+                    try:
+                        tmx = oracle.TextModel("", version); tmx.version = version
+                        r = oracle.tokenize(op[1], version)
+                        own = tmx.name_of(r)
+                        for ident, role in tmx.mentions(r):
+                            cur = None
+                            for x in state.registered(g):
+                                try:
+                                    if x.name == ident:
+                                        cur = x
+                                except Exception:
+                                    pass
+                            if role == "seg" and ((cur is not None and cur.record_type != "S") or ident == own):
+                                clash = ":reference-clash"
+                    except Exception:
+                        pass
                 fails.append(dict(signature="C08:state-changed:%s:%s:%s%s" % (op[0], type(e).__name__, (op[1].split("\t")[0] if op[0] == "add" else op[2] if len(op) > 2 else ""),
-                                                                            ":placeholders-only" if only_placeholders else ""),
+                                                                            (":placeholders-only" if only_placeholders else "") + clash),
                                   what="%r raised %s but: %s" % (op, type(e).__name__, harness.short("; ".join(d), 500)),
                                   case=dict(version=version, lines=lines, op=list(op), vlevel=vlevel),
                                   reproducer="import gfapy\nfrom bounded import state, c08\ng = gfapy.Gfa(%r, vlevel=%d)\nb = state.snapshot(g)\ntry:\n    c08.do(g, %r)\nexcept Exception as e: print(type(e).__name__)\nprint(state.snap_diff(b, state.snapshot(g)))" % (lines, vlevel, op)))
